@@ -388,6 +388,24 @@ pub fn run_scenario(job: &Value) -> Value {
                             }
                         }
                     }
+                } else if let Some(name) = st.get("await_xr").and_then(|x| x.as_str()) {
+                    // until the session has dequeued an external event of that name (at most max_ms: the event may never come)
+                    let ev = st.get("name").and_then(|x| x.as_str()).unwrap_or("").to_string();
+                    let max_ms = st.get("max_ms").and_then(|x| x.as_u64()).unwrap_or(3000);
+                    let until = Instant::now() + Duration::from_millis(max_ms);
+                    let log = env.started.lock().unwrap().get(name).map(|s| s.log.clone());
+                    if let Some(log) = log {
+                        while Instant::now() < until && Instant::now() < deadline {
+                            let seen = log.recs.lock().unwrap().iter().rev().take(5000).any(|r| {
+                                r.get(0).and_then(|x| x.as_str()) == Some("XR")
+                                    && r.get(1).and_then(|e| e.get("name")).and_then(|x| x.as_str()) == Some(ev.as_str())
+                            });
+                            if seen || *log.ended.lock().unwrap() {
+                                break;
+                            }
+                            std::thread::sleep(Duration::from_millis(1));
+                        }
+                    }
                 } else if let Some(name) = st.get("await_end").and_then(|x| x.as_str()) {
                     // until the session's thread has ended (bounded by the scenario deadline)
                     while Instant::now() < deadline {
